@@ -686,7 +686,43 @@ def guards(inst, st):
            and all(dt(v) for v in inst.logistics.travel_times.values())
            and all(dt(o.duration) and dt(o.frequency) for t in inst.transports for o in t.outages))
     noout = all(len(m.outages) == 0 for m in inst.machines) and all(len(t.outages) == 0 for t in inst.transports)
-    return wf, shape, cons, cap, rest, placed, nonneg, det, noout
+    return (wf, shape, cons, cap, rest, placed, nonneg, det, noout) + more_guards(inst, st)
+
+
+def more_guards(inst, st):
+    """tablesTotalB, readyB (C05: JSL/Model/Guards.lean) and outRestB, outPastB (C10), evaluated on the real objects"""
+    from jobshoplab.types.instance_config_types import BufferRoleConfig as _BR
+    from jobshoplab.types.state_types import (OutageInactive as _OI, Time as _T, TransportStateState as _TS)
+    ops = [o for j in inst.instance.specification for o in j.operations]
+
+    def tools_on(mid):
+        return [o.tool for o in ops if o.machine == mid]
+    outs = [b for b in inst.buffers if b.role == _BR.OUTPUT]
+    stands = [m.id for m in inst.machines] + ([outs[0].id] if outs else [])
+    pickup_bufs = [b for b in inst.buffers if b.role != _BR.OUTPUT] + [b for m in inst.machines for b in (m.buffer, m.postbuffer)]
+
+    def src(bc):
+        if bc.parent is None:
+            return bc.id
+        return bc.parent if str(bc.parent).startswith("m-") else None
+    tt = inst.logistics.travel_times
+
+    def reaches(l):
+        return all(src(bc) is not None and (l, src(bc)) in tt for bc in pickup_bufs)
+    tables = (len(outs) > 0 and all(m.buffer.capacity >= 1 for m in inst.machines)
+              and all(src(bc) is not None for bc in pickup_bufs)
+              and all((a, b) in m.setup_times for m in inst.machines for a in tools_on(m.id) for b in tools_on(m.id))
+              and all(reaches(a) for a in stands))
+    cfg_by_id = {m.id: m for m in inst.machines}
+    ready = (all(all((m.mounted_tool, b) in cfg_by_id[m.id].setup_times for b in tools_on(m.id))
+                 for m in st.machines if m.id in cfg_by_id)
+             and all(isinstance(t.location.location, str) and reaches(t.location.location)
+                     for t in st.transports if t.state in (_TS.IDLE, _TS.OUTAGE)))
+    recs = [o for m in st.machines for o in m.outages] + [o for t in st.transports for o in t.outages]
+    out_rest = all(isinstance(o.active, _OI) for o in recs)
+    out_past = all(not isinstance(o.active, _OI) or not isinstance(o.active.last_time_active, _T)
+                   or o.active.last_time_active.time <= st.time.time for o in recs)
+    return tables, ready, out_rest, out_past
 
 
 def conflict_free(offers, rnd, p=0.7):
